@@ -723,7 +723,18 @@ def _is_f1(clause: str, case: Dict[str, Any]) -> bool:
         return False
     if not any(spans_origin(arc) for _, arc in case["areas"]):
         return False
-    return _model_regions(case, exact=True)[0]
+    if _model_regions(case, exact=True)[0]:
+        return True
+    # beyond the exhaustive bound (sampled layouts of 5..7 areas) candidate formation's own
+    # defects change which candidate clusters exist, and the sweep model is no longer exact:
+    # fall back to the plain input feature (an origin-spanning area, at least two components,
+    # no inflated span - that is C06-F2)
+    if len(case["areas"]) <= 4 or _some_span_inflated(case):
+        return False
+    arcs = [arc for _, arc in case["areas"]]
+    masks = [arc_mask(arc, case["L"]) for arc in arcs]
+    pairs = [(a, b) for a in range(len(arcs)) for b in range(a + 1, len(arcs)) if masks[a] & masks[b]]
+    return len(components(len(arcs), pairs)) >= 2
 
 
 def _some_span_inflated(case: Dict[str, Any]) -> bool:
@@ -762,8 +773,8 @@ def _is_f2(clause: str, case: Dict[str, Any]) -> bool:
         return False
     if not any(spans_origin(arc) for _, arc in case["areas"]):
         return False
-    if clause == "region-span-exact" and _some_span_inflated(case):
-        return True
+    if (clause == "region-span-exact" or len(case["areas"]) > 4) and _some_span_inflated(case):
+        return True       # (> 4 areas: sampled layouts, where the sweep model below is not exact)
     raises, sections, region_masks, arcs = _model_regions(case, exact=False)
     if clause == "creation-succeeds":
         return raises
